@@ -6,7 +6,7 @@
 using namespace nix;
 using namespace vh;
 
-#define N_MISUSE 44
+#define N_MISUSE 48
 
 static void misuse(World &w, uint32_t op) {
     uint64_t i = nixsym_u64("index");                 // any 64-bit index
@@ -61,6 +61,11 @@ static void misuse(World &w, uint32_t op) {
     case 41: { std::vector<ndsize_t> idx = {(ndsize_t)i}; util::taggedData(w.mtag, idx, (ndsize_t)0); break; }
     case 42: { std::vector<ndsize_t> idx; util::taggedData(w.mtag, idx, (ndsize_t)i); break; }                        // empty index list
     case 43: util::dataSlice(w.da2, {0.0, 1.0, 2.0}, {1.0, 2.0, 3.0}); break;                                        // more entries than dimensions
+    // in-contract reads into exactly sized buffers, with and without calibration: nothing may be written past the buffer
+    case 44: { w.da1.polynomCoefficients({1.0, 2.0}); std::vector<float> v(4); w.da1.getData(DataType::Float, v.data(), NDSize({4}), NDSize({0})); break; }
+    case 45: { w.da1.expansionOrigin(1.0); std::vector<int16_t> v(2); w.da1.getData(DataType::Int16, v.data(), NDSize({2}), NDSize({1})); std::vector<uint8_t> u(1); w.da1.getData(DataType::UInt8, u.data(), NDSize({1}), NDSize({3})); break; }
+    case 46: { w.da2.polynomCoefficients({0.0, 1.0}); w.da2.expansionOrigin(2.0); std::vector<float> v(6); w.da2.getData(DataType::Float, v.data(), NDSize({2, 3}), NDSize({0, 0})); std::vector<int64_t> l(2); w.da2.getData(DataType::Int64, l.data(), NDSize({1, 2}), NDSize({1, 1})); break; }
+    case 47: { std::vector<float> v(4); w.da1.getData(DataType::Float, v.data(), NDSize({4}), NDSize({0})); std::vector<int8_t> c(6); w.da2.getData(DataType::Int8, c.data(), NDSize({2, 3}), NDSize({0, 0})); DataView dv = w.tag.taggedData((size_t)0); NDSize e = dv.dataExtent(); std::vector<float> t((size_t)e.nelms()); dv.getData(DataType::Float, t.data(), e, NDSize({0})); break; }
     }
 }
 
